@@ -26,9 +26,9 @@ LAMBDAS = [0.5, 1, 2]
 
 # row alphabets (arm, x, y) per feature count; queries: first row non-zero (a zero query hides every bonus)
 ROWS = {
-    1: [(1, [1], 2), (1, [2], -1), (1, [0], 0.5), (2, [1], 0.5), (2, [-1], 2), (2, [2], 2)],
-    2: [(1, [1, 0], 2), (1, [0, 1], -1), (1, [1, 1], 0.5), (2, [1, 1], 2), (2, [2, 1], -1), (2, [0, 1], 0.5)],
-    3: [(1, [1, 0, 0], 2), (1, [0, 1, 1], -1), (1, [1, 1, 0], 0.5), (2, [1, 1, 1], 2), (2, [2, 0, 1], -1),
+    1: [(1, [1], 2), (1, [-2.5], -1), (1, [0], 0.5), (2, [1], 0.5), (2, [-1], 2), (2, [2], 2)],
+    2: [(1, [1, 0], 2), (1, [0.5, -1.5], -1), (1, [1, 1], 0.5), (2, [1, 1], 2), (2, [2, 1], -1), (2, [0, 1], 0.5)],
+    3: [(1, [1, 0, 0], 2), (1, [0, 1.5, -1], -1), (1, [1, 1, 0], 0.5), (2, [1, 1, 1], 2), (2, [2, 0, 1], -1),
         (2, [0, 0, 1], 0.5)],
 }
 QUERIES = {
